@@ -180,13 +180,14 @@ Definition var_step := var_step_with insert_match get_xor_key.
 Record lit_info := { li_var : N; li_lit : N; li_so : N; li_eo : N; li_atom : bytes;
                      li_raw : bytes (* the atom before lower-casing; only the pinned variant reads it *) }.
 
-Definition var_lit_infos (variable_index : N) (v : matcher) : list lit_info :=
+Definition var_lit_infos_with (pick : bytes -> N * N) (variable_index : N) (v : matcher) : list lit_info :=
   mapi (fun literal_index lit =>
-          let '(s, e) := pick_atom_in_literal lit in
+          let '(s, e) := pick lit in
           {| li_var := variable_index; li_lit := literal_index; li_so := s; li_eo := e;
              li_atom := lower_bytes (slice s (nlen lit - e) lit);
              li_raw := slice s (nlen lit - e) lit |})
        (mt_literals v).
+Definition var_lit_infos := var_lit_infos_with pick_atom_in_literal.
 
 (* every literal of every variable, in registration order *)
 Definition all_lit_infos (vars : list matcher) : list lit_info :=
@@ -218,8 +219,8 @@ Fixpoint drop_dup_infos (nocase : bool) (seen : list (bytes * N)) (l : list lit_
       if memb (pair_eqb bytes_eqb N.eqb) k seen then drop_dup_infos nocase seen l'
       else li :: drop_dup_infos nocase (k :: seen) l'
   end.
-Definition acscan_new_pinned (vars : list matcher) : acscan :=
-  let infos := concat (mapi (fun i v => drop_dup_infos (m_nocase (mt_mods v)) [] (var_lit_infos i v)) vars) in
+Definition acscan_new_pinned (pick : bytes -> N * N) (vars : list matcher) : acscan :=
+  let infos := concat (mapi (fun i v => drop_dup_infos (m_nocase (mt_mods v)) [] (var_lit_infos_with pick i v)) vars) in
   {| acs_infos := infos;
      acs_pats := dedup bytes_eqb (map li_atom infos);
      acs_raw := concat (mapi (fun i v => match mt_literals v with [] => [i] | _ => [] end) vars) |}.
